@@ -36,7 +36,7 @@ FLOOR_KEYS = ["op:set_laws:u_laws_None:new_free", "op:set_laws:u_laws_None:new_b
 
 
 def floors(ctx):
-    f = {"evaluations": 20000 if ctx.tier == "quick" else 200000, "histories": 1000, "rule_attribute_checks": 100, "whitelists_passed_as_proxy": 10, "whitelists_with_rows_of_other_mapping_types": 10, "bindings_on_universes_with_non_vertex_members": 40, "bursts": 500,
+    f = {"evaluations": 20000 if ctx.tier == "quick" else 200000, "histories": 1000, "rule_attribute_checks": 100, "whitelists_passed_as_proxy": 10, "whitelists_with_rows_of_other_mapping_types": 10, "whitelists_with_related_key_classes": 5, "bindings_on_universes_with_non_vertex_members": 40, "bursts": 500,
          "law_sets_built_with_positional_arguments": 100}
     for k in FLOOR_KEYS:
         f[k] = 1
@@ -66,6 +66,12 @@ def rule_attributes(ctx, rng):
             wl = {Vertex: {Vertex: DirectedEdge}, Universe: {Vertex: UnDirectedEdge, Universe: DirectedEdge}}
             if n % 3 == 2:
                 wl = {}
+            elif n % 9 == 4:
+                # key classes related by subclassing (Universe is a Vertex, everything is an object): each row reads
+                # back as the row that was passed for exactly that key
+                wl = {Vertex: {Vertex: DirectedEdge, Universe: DirectedEdge}, Universe: {Vertex: UnDirectedEdge},
+                      object: {object: DirectedEdge, Vertex: UnDirectedEdge}, _Fallback: {Vertex: DirectedEdge}}
+                ctx.count("whitelists_with_related_key_classes")
             # the rows may be any mapping the caller happens to have: a defaultdict (missing keys answer with a
             # default AND are inserted), an OrderedDict, a dict subclass with __missing__
             rowkind = (n // 3) % 4
